@@ -31,6 +31,9 @@ RULE = ("k = 2..4 pids drawn from prefix-related names (mat, matt, matthew, MATT
 ASSUMPTIONS = []
 
 NAMES = ["matt", "matthew", "mat", "\u65e5\u672c\u8a9e.matt", "MATT"]
+# sharers that are the same text to a human and different strings to the store: composed / decomposed, compatibility
+# forms, a zero-width joiner (any normalisation, case folding or 'clean-up' of identifiers merges them)
+NAMES_EQUIV = ["m\u00fcller", "mu\u0308ller", "M\u00dcLLER", "m\u00fcller\u200d", "\uff4d\u00fcller"]
 SPEC = {"S": {"cseed": 41, "size": 8200}, "O": {"cseed": 42, "size": 50}}
 DOCS = {"d": b"<doc/>"}
 TAGS_PREFIX = ("state:retriev", "state:retrieve-bytes", "state:model:object", "value:bytes")
@@ -75,6 +78,13 @@ def build_cases(tier, rng):
             for how in itertools.product(("store", "tag"), repeat=k):
                 if tier == "quick" and k >= 3 and how not in (("store",) * k, ("store",) + ("tag",) * (k - 1)):
                     continue
+                for order in itertools.permutations(pids):
+                    cases.append((pids, how, order))
+    for k in (2, 3):
+        for pids in itertools.combinations(NAMES_EQUIV, k):
+            if k == 3 and tier == "quick" and pids != tuple(NAMES_EQUIV[:3]):
+                continue
+            for how in ((("store",) * k, ("store",) + ("tag",) * (k - 1)) if tier == "quick" else itertools.product(("store", "tag"), repeat=k)):
                 for order in itertools.permutations(pids):
                     cases.append((pids, how, order))
     return cases
@@ -347,7 +357,7 @@ def run_shard(mode, payload, tier, sub_seed):
                         ops.append({"op": "delete", "pid": p})
                         if j < k - 1 and menu[combo[j]] is not None:
                             ops.append(menu[combo[j]])
-                    run_seq(pool, ops, res, list(NAMES) + ["newpid", "nobody", "nobody2", "alias"])
+                    run_seq(pool, ops, res, list(NAMES) + list(NAMES_EQUIV) + ["newpid", "nobody", "nobody2", "alias"])
                     res.evaluations += 1
                     count += 1
                     if count % 300 == 0:
@@ -355,15 +365,15 @@ def run_shard(mode, payload, tier, sub_seed):
                     if count == 2:
                         res.sample([op_shape(o) + ":" + str(o.get("pid")) for o in ops])
         else:
-            pids = NAMES
             for k in range(payload):
+                pids = NAMES if k % 3 else NAMES_EQUIV
                 ops = []
                 for _ in range(35):
                     if rng.random() < 0.2:
                         ops.append(random_meta_op(rng, pids, [None, "f1"], ["d"]))
                     else:
                         ops.append(random_object_op(rng, pids, ["S", "S", "O"], kinds=("path", "file", "bytesio")))
-                run_seq(pool, ops, res, list(NAMES))
+                run_seq(pool, ops, res, list(NAMES) + list(NAMES_EQUIV))
                 res.evaluations += 1
                 clear_atexit_tmp_handlers()
     finally:
